@@ -131,7 +131,10 @@ class C45(SchedProp):
             'and custom outputs, suicide triggers, retries) with an absolute trigger (foo[^], foo[^+P1], foo[<point>]) offered '
             'at every second trigger site and 30% warm starts, driven through the real Scheduler by a seeded adaptive '
             'schedule ("any" kind: failures, missing outputs, duplicate/stale/out-of-order messages; "cmdr" kind: one stop '
-            '--now / clean stop at a random moment followed by a restart); plus the three minimal histories of the recorded '
+            '--now / clean stop at a random moment followed by a restart); every sixth case from the family "absr": two or three '
+            'DIFFERENT outputs (started / succeeded / custom) of one task behind absolute triggers, dependents spawned cycle by '
+            'cycle under runahead P0/P1 (through an inter-cycle parent or as parentless successors), one stop + restart at a '
+            'random moment, run continued to the end; plus the three minimal histories of the recorded '
             'defect and five stop+restart runs of "a[^] & b[-P1] => c"; non-trivial = distinct (kind, absolute-output completed or not, ending, '
             'launch-count) class per distinct case')
     gen_opts = {'p_abs': 0.5, 'abs_forms': ['^', '^', '^+P1', 'icp+1'], 'p_startcp': 0.3, 'p_intercycle': 0.3,
